@@ -153,7 +153,10 @@ std::string runEF(char kind, AbstractLoss<L, RealVector>& loss, std::vector<Real
 	}
 	if (kind == 'B') random::globalRng.seed((unsigned)seed);
 	ef->init();
-	double v = ef->eval(p);
+	// the plain value is taken from a COPY of the error function (copies must behave like the original, regularizer included),
+	// the derivative call from the original
+	double v;
+	if (kind == 'B') v = ef->eval(p); else { ErrorFunction<> efc(*ef); efc.init(); v = efc.eval(p); }
 	RealVector g;
 	double dv = ef->evalDerivative(p, g);
 	o << "v=" << hx(v) << " dv=" << hx(dv) << " g=" << hv(g);
